@@ -253,8 +253,11 @@ def check_tree(tree, sd, typed, bad, res):
                 res.count("nodes_checked")
                 if not isinstance(k.data, fac):
                     bad.append(f"data class {type(k.data).__name__}, factory {fac.__name__}")
-                idx_opts = {i} if single_rel else {i, pos}
-                hier_opts = {(f"{p}.{j}" if p else f"{j}") for p in prefix_opts for j in idx_opts}
+                # "sibling index" may be read as the index within the relation or among all siblings; whichever reading is
+                # taken, it has to be the same one for {idx}, for {hier_idx} and for every component of the path
+                readings = [(i, prefix_opts[0]), (pos, prefix_opts[1])]
+                pairs = {(j, (f"{p}.{j}" if p else f"{j}")) for j, p in readings}
+                hier_opts = ((f"{prefix_opts[0]}.{i}" if prefix_opts[0] else f"{i}"), (f"{prefix_opts[1]}.{pos}" if prefix_opts[1] else f"{pos}"))
                 for key, val in merged.items():
                     if key.startswith(":"):
                         bad.append(f"unexpected special key {key}")
@@ -294,14 +297,14 @@ def check_tree(tree, sd, typed, bad, res):
                             if not isinstance(v, str) or not v:
                                 bad.append(f"text attribute {key}={v!r}")
                             elif isinstance(val.template, str) and "$(" not in val.template:
-                                exp = {val.template.format(idx=j, hier_idx=h) for j in idx_opts for h in hier_opts}
+                                exp = {val.template.format(idx=j, hier_idx=h) for j, h in pairs}
                                 if v not in exp:
                                     bad.append(f"text attribute {key}={v!r}, expected one of {sorted(exp)}")
                         elif issubclass(rcls, tg.BlindTextRandomizer):
                             if not isinstance(v, str) or not v:
                                 bad.append(f"blind text attribute {key}={v!r}")
                     elif isinstance(val, str):
-                        exp = {val.format(idx=j, hier_idx=h) for j in idx_opts for h in hier_opts}
+                        exp = {val.format(idx=j, hier_idx=h) for j, h in pairs}
                         if "{" in val:
                             res.count("macros_checked")
                         if a.get(key) not in exp:
@@ -319,7 +322,7 @@ def check_tree(tree, sd, typed, bad, res):
                 elif list(k.children):
                     bad.append(f"type {ty} has no relations but the node has children")
 
-    rec(tree.system_root, "__root__", {""}, 0)
+    rec(tree.system_root, "__root__", ("", ""), 0)
 
 
 def run_case(case, res):
@@ -327,7 +330,13 @@ def run_case(case, res):
     from nutree.typed_tree import TypedTree
 
     sd = gen_def(rng_for(case["def_seed"], "c20-def"))
-    cls = TypedTree if case["cls"] == "typed" else Tree
+    class UserTree(Tree):  # user subclasses: the result must be of that class; "typed" means "is a TypedTree"
+        pass
+
+    class UserTypedTree(TypedTree):
+        pass
+
+    cls = {"typed": TypedTree, "plain": Tree, "typed_sub": UserTypedTree, "plain_sub": UserTree}[case["cls"]]
     bad = []
     import copy
 
@@ -376,7 +385,7 @@ def run_case(case, res):
                 bad.append(f"tree name {t.name!r}")
             if repr(describe(sd)) != before:
                 bad.append("structure definition was modified")
-            check_tree(t, sd, cls is TypedTree, bad, res)
+            check_tree(t, sd, issubclass(cls, TypedTree), bad, res)
             randomized = "Randomizer" in before
             res.case(case, nontrivial=t.count >= 5 and t.calc_height() >= 2 and randomized)
             res.count("trees")
@@ -403,7 +412,7 @@ def run_shard(spec, res):
     for j in range(spec["count"]):
         ds = rng.randrange(10**9)
         for rs in (rng.randrange(10**6), rng.randrange(10**6)):
-            for cls in ("plain", "typed"):
+            for cls in ("plain", "typed", "typed_sub" if j % 2 else "plain_sub"):
                 run_case({"def_seed": ds, "rand_seed": rs, "cls": cls, "failed_build_first": (j + rs) % 4 == 0}, res)
         if res.expired():
             break
